@@ -5,7 +5,7 @@
    it documents the defects), [fx = true] the code as it is now. *)
 From W Require Import gen.Consts model.Base model.Engine model.EngineCfg model.Conc spec.ConcSpec
   proofs.EngineWF proofs.ConcInv proofs.ConcStep proofs.ConcBridge proofs.ConcMain
-  proofs.ConcInvF proofs.ConcStepF proofs.ConcBridgeF proofs.ConcMainF.
+  proofs.ConcInvF proofs.ConcStepF proofs.ConcBridgeF proofs.ConcMainF proofs.ConcExplore proofs.ConcFamilies.
 From Coq Require Import Lia.
 
 (* the property at full strength: every schedule of every set of thread programs (distinct
@@ -212,7 +212,7 @@ Theorem c05_fixed_every_schedule_partial :
     let ro := run_schedule {| v_cfg := c; v_mode := m; v_backend := be |} true progs sched in
     threads_done (ro_cs ro) = true ->
     c05_run_ok progs (cresults (ro_cs ro)) false = true.
-Proof. intros c m be progs sched. exact (fixed_every_schedule c m be progs sched). Qed.
+Proof. intros c m be progs sched Hc Hs. exact (fixed_every_schedule c m be progs sched Hc (simple_progs_P _ Hs)). Qed.
 
 (* the one-consumer-per-topic instance asked for first (the hypothesis is not needed) *)
 Corollary c05_single_consumer_fixed_partial :
@@ -221,20 +221,20 @@ Corollary c05_single_consumer_fixed_partial :
     let ro := run_schedule {| v_cfg := c; v_mode := m; v_backend := be |} true progs sched in
     threads_done (ro_cs ro) = true ->
     c05_run_ok progs (cresults (ro_cs ro)) false = true.
-Proof. intros c m be progs sched Hc Hs _ Hnd. exact (fixed_every_schedule c m be progs sched Hc Hs Hnd). Qed.
+Proof. intros c m be progs sched Hc Hs _ Hnd. exact (fixed_every_schedule c m be progs sched Hc (simple_progs_P _ Hs) Hnd). Qed.
 
 Theorem c05_fixed_invariant_every_schedule :
   forall (c : Cfg) (m : mode) (be : backend) (progs : list (list call)) (sched : list nat),
     cfg_ok c -> simple_progs progs -> NoDup (offered_pids progs) ->
     exists L, INVF c progs (ro_cs (run_schedule {| v_cfg := c; v_mode := m; v_backend := be |} true progs sched)) L.
-Proof. intros c m be progs sched. exact (invF_every_schedule c m be progs sched). Qed.
+Proof. intros c m be progs sched Hc Hs. exact (invF_every_schedule c m be progs sched Hc (simple_progs_P _ Hs)). Qed.
 
 Theorem c05_fixed_real : forall m be progs sched,
   simple_progs progs -> NoDup (offered_pids progs) ->
   let ro := run_schedule {| v_cfg := real_cfg; v_mode := m; v_backend := be |} true progs sched in
   threads_done (ro_cs ro) = true ->
   c05_run_ok progs (cresults (ro_cs ro)) false = true.
-Proof. intros m be progs sched. exact (fixed_every_schedule real_cfg m be progs sched real_cfg_ok'). Qed.
+Proof. intros m be progs sched Hs. exact (fixed_every_schedule real_cfg m be progs sched real_cfg_ok' (simple_progs_P _ Hs)). Qed.
 
 (* non-vacuity: the pre-fix witness schedules are instances (simple programs, distinct ids, every
    call returned); the monitor flags ARE raised on them, and the fixed code's results are accepted
@@ -251,6 +251,80 @@ Proof.
   split; [repeat constructor|]. split; [repeat constructor; cbn; intuition discriminate|]. vm_compute. auto.
 Qed.
 
+(* ---- the same with peeks: programs of single appends and read_next calls, consuming or not ---- *)
+(* [simple_progsP]: every call is CAppend _ _ or CRead _ ck for any ck.  Peeks deliver nothing (the
+   acceptor ignores what they return) but they do run through the shared cursor: they step over
+   exhausted sealed blocks, take tail and writer snapshots and go through the fix's checks. *)
+Theorem c05_fixed_with_peeks_partial :
+  forall (c : Cfg) (m : mode) (be : backend) (progs : list (list call)) (sched : list nat),
+    cfg_ok c -> simple_progsP progs -> NoDup (offered_pids progs) ->
+    let ro := run_schedule {| v_cfg := c; v_mode := m; v_backend := be |} true progs sched in
+    threads_done (ro_cs ro) = true ->
+    c05_run_ok progs (cresults (ro_cs ro)) false = true.
+Proof. intros c m be progs sched. exact (fixed_every_schedule c m be progs sched). Qed.
+
+(* non-vacuity: a peeking thread interleaved with a producer that rotates and a consumer *)
+Definition pk_progs := [a4; [CRead t1 false; CRead t1 true; CRead t1 false; CRead t1 true];
+                        [CRead t1 false; CRead t1 false; CRead t1 true]; [CRead t1 true; CRead t1 true; CRead t1 true]].
+Definition pk_sched := sch (rep 9 0 ++ [1;1;2;2;1;2] ++ rep 5 0 ++ [1;2;1;2;1;2;1;2;1;2;1;2] ++ rep 40 1 ++ rep 40 2 ++ rep 40 3).
+Example c05_fixed_peeks_witness :
+  simple_progsP pk_progs /\ NoDup (offered_pids pk_progs) /\
+  fst (verdict true pk_progs pk_sched) = (true, true) /\
+  existsb (fun r => match r with REntry _ => true | _ => false end)
+          (nth 2 (cresults (ro_cs (run_schedule v0 true pk_progs pk_sched))) []) = true.
+Proof. split; [repeat constructor|]. split; [repeat constructor; cbn; intuition discriminate|]. vm_compute. auto. Qed.
+
+(* ------------------------------------------------------------------ batch appends and batch reads
+   Not covered by the theorems above.  What is proved for them (fixed code, fx = true) is
+   exhaustive for CONCRETE thread programs: [explore] (proofs/ConcExplore.v) walks every schedule of
+   the model from the state reached by a serial prologue and [explore_sound] turns its answer into a
+   statement over ALL schedules (lists of thread ids of any length).  The general statements remain
+   open: [C05_fixed_with_batches], [C05_fixed_all_calls] below. *)
+(* [every_schedule_after progs pre]: every schedule that starts with the serial prologue [pre], run on
+   the fixed model with the small geometry, is accepted once every call has returned.  The families
+   (proofs/ConcFamilies.v; topic 1, entries of 1000 bytes, p2 = two single appends then a batch of three that
+   crosses the block boundary, brm = consuming batch read without byte limit): bf1 p2 against three read_next;
+   bf2 four single appends (the fourth rotates) against two batch reads and a read_next; bf3 p2 against the
+   same; bf4 two batch writers on one topic and a consumer; bf6 one batch over three blocks against a
+   consumer; bf9 p2 against a batch-reading and a read_next consumer; bf10 p2 against two batch readers. *)
+Theorem c05_fixed_batches_every_schedule_bounded :
+  every_schedule_after bf1 pre6 /\ every_schedule_after bf2 pre9 /\ every_schedule_after bf3 pre6 /\
+  every_schedule_after bf4 [] /\ every_schedule_after bf6 [] /\
+  every_schedule_after bf9 pre6 /\ every_schedule_after bf10 pre6.
+Proof. exact batches_every_schedule_bounded. Qed.
+
+(* not vacuous: a complete schedule of each family in which the consumers receive batch entries *)
+Example c05_fixed_batches_witness :
+  (let ro := run_schedule v0 true bf1 (pre6 ++ sch (rep 40 0 ++ rep 40 1)) in
+     threads_done (ro_cs ro) = true /\ nth 1 (cresults (ro_cs ro)) [] = [o 0 1000; o 1 1000; o 2 1000]) /\
+  (let ro := run_schedule v0 true bf3 (pre6 ++ sch (rep 40 0 ++ rep 40 1)) in
+     threads_done (ro_cs ro) = true /\
+     nth 1 (cresults (ro_cs ro)) [] = [REntries [oo 0 1000; oo 1 1000; oo 2 1000; oo 3 1000; oo 4 1000]; REntries []; RNone]) /\
+  (let ro := run_schedule v0 true bf4 (sch ([0;1] ++ rep 40 0 ++ rep 40 1 ++ rep 40 2)) in
+     threads_done (ro_cs ro) = true /\
+     cresults (ro_cs ro) = [[ROk]; [RErr EWouldBlock]; [o 0 1000; o 1 1000]]).
+Proof. vm_compute. auto. Qed.
+
+(* what remains open for the fixed code: batch appends in arbitrary programs ... *)
+Definition batch_call (cl : call) : bool :=
+  match cl with CAppend _ _ | CRead _ _ | CBatch _ _ => true | CBatchRead _ _ _ => false end.
+Definition C05_fixed_with_batches : Prop :=
+  forall c m be progs sched, cfg_ok c ->
+    Forall (Forall (fun cl => batch_call cl = true)) progs -> NoDup (offered_pids progs) ->
+    let ro := run_schedule {| v_cfg := c; v_mode := m; v_backend := be |} true progs sched in
+    threads_done (ro_cs ro) = true -> c05_run_ok progs (cresults (ro_cs ro)) false = true.
+(* ... and all four call kinds (adds batch reads) *)
+Definition C05_fixed_all_calls : Prop :=
+  forall c m be progs sched, cfg_ok c -> NoDup (offered_pids progs) ->
+    let ro := run_schedule {| v_cfg := c; v_mode := m; v_backend := be |} true progs sched in
+    threads_done (ro_cs ro) = true -> c05_run_ok progs (cresults (ro_cs ro)) false = true.
+
+Check c05_fixed_with_peeks_partial :
+  forall c m be progs sched, cfg_ok c -> simple_progsP progs -> NoDup (offered_pids progs) ->
+    let ro := run_schedule {| v_cfg := c; v_mode := m; v_backend := be |} true progs sched in
+    threads_done (ro_cs ro) = true -> c05_run_ok progs (cresults (ro_cs ro)) false = true.
+Check c05_fixed_batches_every_schedule_bounded.
+Print Assumptions c05_fixed_batches_every_schedule_bounded.
 Check c05_fixed_every_schedule_partial :
   forall (c : Cfg) (m : mode) (be : backend) (progs : list (list call)) (sched : list nat),
     cfg_ok c -> simple_progs progs -> NoDup (offered_pids progs) ->
@@ -261,6 +335,7 @@ Print Assumptions c05_fixed_every_schedule_partial.
 Print Assumptions c05_single_consumer_fixed_partial.
 Print Assumptions c05_fixed_invariant_every_schedule.
 Print Assumptions c05_fixed_real.
+Print Assumptions c05_fixed_with_peeks_partial.
 Check c05_single_consumer_outside_known_partial :
   forall (c : Cfg) (m : mode) (be : backend) (progs : list (list call)) (sched : list nat),
     cfg_ok c -> simple_progs progs -> single_consumer progs -> NoDup (offered_pids progs) ->
